@@ -151,12 +151,15 @@ impl<'tx> Tx<'tx> {
             vh::yield_point("tx_new:freelist_cloned");
             vh::before_lock("open_ro_txs", &|| vh::can_lock(&db.inner.open_ro_txs));
         }
+        // A read-only transaction must be registered by the time a writer decides which pages it may
+        // reuse. Hold the list of open read-only transactions while the meta page is read, otherwise
+        // two commits can slip in between and overwrite the pages of the snapshot just chosen.
+        let mut open_ro_txs = db.inner.open_ro_txs.lock().unwrap();
         let mut meta = db.inner.meta()?;
         debug_assert!(meta.valid());
         #[cfg(feature = "verif-hooks")]
         crate::verif_hooks::yield_point("tx_new:meta_read");
         {
-            let mut open_ro_txs = db.inner.open_ro_txs.lock().unwrap();
             if writable {
                 meta.tx_id += 1;
                 if open_ro_txs.len() > 0 {
@@ -169,6 +172,7 @@ impl<'tx> Tx<'tx> {
                 open_ro_txs.sort_unstable();
             }
         }
+        drop(open_ro_txs);
         let freelist = Rc::new(RefCell::new(TxFreelist::new(meta.clone(), freelist)));
 
         #[cfg(feature = "verif-hooks")]
